@@ -27,7 +27,8 @@ LEVEL_TEXT = (
     "session id) is enumerated - exhaustive per wrapper, sampled over wrappers, hence exploration. Handshakes: random X25519 "
     "pairs x password pairs (bounded number of PBKDF2 runs), SessionAuthenticate MAC and session key compared with the "
     "reference, every bit flip of the SessionResponse refused, plus full connects on the virtual loop against a reference server. "
-    "TimerNotify: MAC equality and every bit flip refused. "
+    "TimerNotify: MAC equality and every bit flip refused. Tampering is also done on the parsed frame OBJECT (header total_length / service type and each body field changed alone, "
+    "then handed to decrypt_frame and to handle_knxipframe of a real SecureGroup and SecureSession): the MAC covers the header as received, so each must be refused. "
     "Both real transports (SecureGroup with its own timer and per-call random tag, SecureSession after a real handshake with its own counter; tag and sequence sources "
     "not pinned) wrap random frames; each wrapper is verified and rebuilt by the reference from the fields it carries and unwrapped by a second SecureGroup with the same key."
 )
@@ -191,6 +192,92 @@ def flip_neighbourhood(ctx, w, layer, wire):
     ctx.count("flip_neighbourhoods_completed")
 
 
+def object_mutations(rng):
+    """(field name, fn(frame)) - one change to a parsed SecureWrapper frame OBJECT, everything else untouched."""
+    from xknx.knxip import KNXIPServiceType as S
+
+    def flip(b, r=rng):
+        i = r.randrange(len(b))
+        return b[:i] + bytes((b[i] ^ (1 << r.randrange(8)),)) + b[i + 1 :]
+
+    out = []
+    for delta in (1, -1, 16, -16, 2, -6):
+        out.append(("header-total-length", lambda f, d=delta: setattr(f.header, "total_length", max(0, f.header.total_length + d))))
+    for value in (0, 6, 38, 65535):
+        out.append(("header-total-length", lambda f, v=value: setattr(f.header, "total_length", v)))
+    for svc in (S.ROUTING_INDICATION, S.TIMER_NOTIFY, S.SESSION_STATUS, S.TUNNELLING_REQUEST, S.SESSION_REQUEST, S.SEARCH_REQUEST):
+        out.append(("header-service-type", lambda f, v=svc: setattr(f.header, "service_type_ident", v)))
+    out.append(("session-id", lambda f: setattr(f.body, "secure_session_id", f.body.secure_session_id ^ (1 << rng.randrange(16)))))
+    out.append(("sequence", lambda f: setattr(f.body, "sequence_information", flip(f.body.sequence_information))))
+    out.append(("serial", lambda f: setattr(f.body, "serial_number", flip(f.body.serial_number))))
+    out.append(("tag", lambda f: setattr(f.body, "message_tag", flip(f.body.message_tag))))
+    out.append(("ciphertext", lambda f: setattr(f.body, "encrypted_data", flip(f.body.encrypted_data))))
+    out.append(("ciphertext-shortened", lambda f: setattr(f.body, "encrypted_data", f.body.encrypted_data[:-1])))
+    out.append(("ciphertext-extended", lambda f: setattr(f.body, "encrypted_data", f.body.encrypted_data + b"\x00")))
+    out.append(("mac", lambda f: setattr(f.body, "message_authentication_code", flip(f.body.message_authentication_code))))
+    return out
+
+
+def object_tamper(ctx, rng, w, layer, wire):
+    """Tampering on the frame object (not on octets that are re-parsed): the MAC covers the header as received."""
+    for fld, mutate in object_mutations(rng):
+        ctx.ev()
+        frame, _ = KNXIPFrame.from_knx(wire)
+        before = (frame.header.to_knx(), frame.body.to_knx())
+        mutate(frame)
+        try:
+            if (frame.header.to_knx(), frame.body.to_knx()) == before:
+                continue
+        except Exception:  # noqa: BLE001
+            pass
+        try:
+            layer.decrypt_frame(frame)
+        except (KNXSecureValidationError, CouldNotParseKNXIP):
+            ctx.count("object_tamper_refused_" + fld)
+        except Exception:  # noqa: BLE001 - refused all the same
+            ctx.count("object_tamper_refused_by_other_exception")
+        else:
+            ctx.violation(
+                f"tampered-wrapper-object-accepted-{fld}", dict(w, wire=wire, changed=fld, header=frame.header.to_knx(), body=frame.body.to_knx()),
+                f"a SecureWrapper frame object whose {fld} alone was changed is accepted by decrypt_frame",
+            )
+        ctx.distinct(("object-tamper", fld))
+
+
+def transport_object_tamper(ctx, rng, what, transport, wire, calls, reset):
+    """The same through handle_knxipframe of a real transport: the tampered object must not reach the callbacks."""
+    from xknx.knxip import HPAI
+
+    src = HPAI("10.0.0.9", 3671)
+    reset()
+    frame, _ = KNXIPFrame.from_knx(wire)
+    n = len(calls)
+    transport.handle_knxipframe(frame, src)
+    if len(calls) != n + 1:
+        ctx.count(f"untampered_object_not_forwarded_by_{what}")
+        return
+    ctx.count(f"untampered_object_forwarded_by_{what}")
+    for fld, mutate in object_mutations(rng):
+        ctx.ev()
+        reset()
+        frame, _ = KNXIPFrame.from_knx(wire)
+        mutate(frame)
+        if not isinstance(frame.body, SecureWrapper):
+            continue
+        n = len(calls)
+        try:
+            transport.handle_knxipframe(frame, src)
+        except Exception:  # noqa: BLE001 - refused
+            ctx.count("object_tamper_refused_by_other_exception")
+        if len(calls) != n:
+            ctx.violation(
+                f"tampered-wrapper-object-forwarded-by-{what}-{fld}", {"part": "real-transport", "transport": what, "wire": wire, "changed": fld, "header": frame.header.to_knx()},
+                f"{what}.handle_knxipframe passed on a SecureWrapper frame object whose {fld} alone was changed",
+            )
+        else:
+            ctx.count(f"object_tamper_not_forwarded_by_{what}")
+
+
 def field_replacements(ctx, rng, w, layer, wire):
     """Whole-field changes (multi-bit), one per field."""
     total = len(wire)
@@ -246,6 +333,7 @@ def part_wrap(ctx):
                 flips_done += 1
             if not any(ref.service_of(plain) == s.value for s in FORBIDDEN_WRAPPED_SERVICES):
                 field_replacements(ctx, rng, case_dict(key, sid, seq, serial, tag, plain, name), Layer(key, sid, seq, tag), wire)
+                object_tamper(ctx, rng, case_dict(key, sid, seq, serial, tag, plain, name), Layer(key, sid, seq, tag), wire)
             if idx <= 3:
                 ctx.sample({"body": name, "plain": plain, "key": key, "session_id": sid, "sequence": seq, "serial": serial, "tag": tag, "wire": wire})
     # every payload length residue mod 16 and several block counts
@@ -306,6 +394,8 @@ def part_real_transports(ctx):
             sender = SecureGroup(local_addr=("10.0.0.1", 0), remote_addr=("224.0.23.12", 3671), backbone_key=key, latency_ms=1000)
             receiver = SecureGroup(local_addr=("10.0.0.2", 0), remote_addr=("224.0.23.12", 3671), backbone_key=key, latency_ms=1000)
             sender.secure_timer.update(rng.choice((0, rng.randrange(1 << 40))))
+            group_calls = []
+            receiver.register_callback(lambda f, src, t, c=group_calls: c.append(1))
             tags = set()
             for i in range(per):
                 made = random_plain_frame(rng, rng.choice(names))
@@ -328,6 +418,14 @@ def part_real_transports(ctx):
                     )
                 else:
                     ctx.count("real_secure-group_peer_roundtrips")
+                if i % 5 == 0:
+                    calls = group_calls
+
+                    def reset_group():
+                        receiver.secure_timer.timer_authenticated = True
+                        receiver.secure_timer.update(sender.secure_timer.current_timer_value())  # same group time: the wrapper is timely
+
+                    transport_object_tamper(ctx, rng, "secure-group", receiver, wire, calls, reset_group)
                 if g == 0 and i == 0:
                     ctx.sample({"secure_group_wrapper": wire, "key": key, "plain": plain})
             if len(tags) > 1:
@@ -349,6 +447,8 @@ def part_real_transports(ctx):
         session = SecureSession(remote_addr=("10.0.0.2", 3671), user_id=2, user_password="secret")
     finally:
         mod.derive_user_password = saved
+    session_calls = []
+    session.register_callback(lambda f, src, t: session_calls.append(1))
     for h in range(ctx.scale(4, 20)):
         cpriv = ref.x25519_private(rng.randbytes(32))
         spriv = ref.x25519_private(rng.randbytes(32))
@@ -366,6 +466,13 @@ def part_real_transports(ctx):
             frame, plain = made
             wire = session.encrypt_frame(frame).to_knx()
             fields = real_wrapper_case(ctx, "secure-session", skey, sid, wire, plain, type(frame.body).__name__, {"index": i})
+            if i % 5 == 0 and not any(ref.service_of(plain) == sv.value for sv in FORBIDDEN_WRAPPED_SERVICES):
+                def reset_session():
+                    session.initialized = True
+                    session._sequence_number_received = -1
+
+                transport_object_tamper(ctx, rng, "secure-session", session, wire, session_calls, reset_session)
+                session.initialized = False
             if fields is not None:
                 if prev is not None and fields.seq_int <= prev:
                     ctx.violation("secure-session-wrapper-sequence-not-increasing", {"part": "real-transport", "previous": prev, "this": fields.seq_int}, "consecutive wrappers of a session do not carry increasing sequence numbers")
@@ -634,9 +741,11 @@ def run(ctx):
         "bitflips_header", "bitflips_session-id", "bitflips_sequence", "bitflips_serial", "bitflips_tag", "bitflips_ciphertext", "bitflips_mac",
         "keyflips", "session_id_flips", "timer_notifies_compared_with_reference", "timer_notify_flip_neighbourhoods",
         "real_secure-group_wrappers_verified", "real_secure-group_peer_roundtrips", "secure_group_runs_with_varying_tags",
+        "object_tamper_refused_header-total-length", "object_tamper_refused_header-service-type", "object_tamper_refused_mac", "object_tamper_refused_ciphertext-extended",
+        "untampered_object_forwarded_by_secure-group", "object_tamper_not_forwarded_by_secure-group",
     )
     if ctx.shard == 0:
-        ctx.require("key_derivations_compared_latin1", "key_derivations_compared_ascii", "same_string_through_both_derivations", "real_secure-session_wrappers_verified", "handshakes", "session_keys_compared", "session_response_flip_neighbourhoods", "wire_connects", "forged_session_response_refused_mac")
+        ctx.require("untampered_object_forwarded_by_secure-session", "object_tamper_not_forwarded_by_secure-session", "key_derivations_compared_latin1", "key_derivations_compared_ascii", "same_string_through_both_derivations", "real_secure-session_wrappers_verified", "handshakes", "session_keys_compared", "session_response_flip_neighbourhoods", "wire_connects", "forged_session_response_refused_mac")
     part_wrap(ctx)
     part_real_transports(ctx)
     part_handshake(ctx)
